@@ -323,6 +323,9 @@ def run(ctx):
                 'pipeline and the creator; names ordered by field number')
     compare(ctx, 'C16.cload-pairs', ctx.fa('cooler.cli.cload.pairs'), REF_PAIRS, module='cooler.cli.cload',
             why='is_one_based = not zero_based, field numbers - 1, count always produced, comment character honoured, names ordered by field number')
+    from .C20 import REF_PARSE_BINS
+    compare(ctx, 'C16.parse_bins', ctx.fa('cooler.cli._util.parse_bins'), REF_PARSE_BINS, module='cooler.cli._util',
+            why='chromsizes:binsize -> fixed-width bins over all names; BED bins read with string chromosome names')
     common.dead_branches(ctx, ['cooler.cli.zoomify.zoomify', 'cooler.cli.dump.dump', 'cooler.cli.load.load', 'cooler.cli.cload.pairs',
                                'cooler.cli._util.parse_field_param', 'cooler.cli._util.parse_bins'])
     from .C09 import cli_expansion
